@@ -241,6 +241,10 @@ func (n *RaftNode) Restore(rc io.ReadCloser) error {
 		if err := n.db.LoadSnapshot(reader); err != nil {
 			return err
 		}
+
+		// the store changed underneath the balloon: its in-memory hyper cache
+		// still reflects the state before the transfer
+		n.balloon.RebuildHyperCache()
 	}
 
 	n.loadState()
